@@ -1,8 +1,10 @@
 import RomeaModel.Proto
 import RomeaModel.Ransac
+import RomeaModel.Sampler
 open Romea Romea.Proto Romea.Ransac Romea.Generated
 
-/-! Driver for C06: RANSAC / ICP control skeleton at `Float` (binary64). -/
+/-! Driver for C06: RANSAC / ICP control skeleton at `Float` (binary64); the sampler (`RomeaModel/Sampler.lean`) at
+    `Float` weights with `Float` / `Float32` points. -/
 
 /-- `FITTING_PROBABILITY_` as the `RansacIterations` constructor sees it (`const float &`) -/
 def fittingProbability : Float :=
@@ -15,6 +17,40 @@ def icpEpsilon : Float := OfScientific.ofScientific C06.icpEpsilonMantissa true 
 def dblEps : Float := Limits.eps
 def dblMax : Float := Limits.maxVal
 
+/-! ### Sampler ops -/
+
+/-- the sampler object of a case: its type, the model state at the point scalar of that type, and the point set /
+    correspondence list handed to the following draws -/
+structure Smp where
+  ty : String
+  dim : Nat
+  homog : Bool
+  isFloat : Bool
+  stD : Sampler.State Float Float
+  stF : Sampler.State Float Float32
+  pts : List (List Float) := []                 -- as parsed (`double`), `DIM` coordinates each
+  corrs : List (Sampler.Corr Float) := []
+
+/-- order of Eigen's `.sum()` of the squares in `updateWeights_` as compiled by g++ 12 -O3 (SSE2, no FMA), measured on
+    the real class for every point type: three `float`s are added from the right, four coefficients as two packets. -/
+def sumOrderOf (size : Nat) (isFloat : Bool) : Sampler.SumOrder :=
+  if size = 4 then .pairs else if size = 3 ∧ isFloat then .right else .left
+
+namespace Smp
+def size (s : Smp) : Nat := if s.homog then s.dim + 1 else s.dim
+def order (s : Smp) : Sampler.SumOrder := sumOrderOf s.size s.isFloat
+/-- `PT<P>::make`: `static_cast<Scalar>` of the coordinates, trailing 1 for homogeneous points -/
+def mkD (s : Smp) (c : List Float) : List Float := if s.homog then c ++ [1.0] else c
+def mkF (s : Smp) (c : List Float) : List Float32 := (s.mkD c).map Float.toFloat32
+def engine (s : Smp) : Nat := if s.isFloat then s.stF.engine else s.stD.engine
+def scaleStr (s : Smp) : List String :=
+  if s.isFloat then s.stF.scale.map (fun x => fmtF64 x.toFloat) else s.stD.scale.map fmtF64
+def weightsStr (s : Smp) : List String :=
+  let w := if s.isFloat then s.stF.weights else s.stD.weights
+  let c := if s.isFloat then s.stF.cum else s.stD.cum
+  ["w", toString w.length] ++ w.map fmtF64 ++ ["c", toString c.length] ++ c.map fmtF64
+end Smp
+
 structure St where
   dim : Nat := 2
   isFloat : Bool := false
@@ -22,6 +58,7 @@ structure St where
   n : Nat := 0
   cons : Consensus Float := Consensus.cleared dblMax
   loaded : Bool := false
+  smp : Option Smp := none
 
 def parseType? : String → Option (Nat × Bool × Bool)   -- dim, homogeneous, float
   | "c2d" => some (2, false, false) | "c3d" => some (3, false, false)
@@ -53,6 +90,81 @@ def parseCorrs? (n : String) (rest : List String) : Option (List (Corr Float)) :
   let n ← n.toNat?
   let ch ← chunks 3 rest
   if ch.length ≠ n then none else parseAll? parseCorr? ch
+
+def smpStep (st : St) (toks : List String) : St × String :=
+  match toks, st.smp with
+  | ["smp.new", ty], old =>
+    match parseType? ty with
+    | some (dim, homog, isFloat) =>
+      let size := if homog then dim + 1 else dim
+      -- the point set and the correspondence list survive a new object of the same type (as in the harness)
+      let (pts, corrs) := match old with
+        | some o => if o.ty == ty then (o.pts, o.corrs) else ([], [])
+        | none => ([], [])
+      let s : Smp := { ty := ty, dim := dim, homog := homog, isFloat := isFloat, stD := Sampler.State.init size,
+                       stF := Sampler.State.init size, pts := pts, corrs := corrs }
+      ({ st with smp := some s }, unwords (["ok", "eng", toString s.engine, "scale"] ++ s.scaleStr))
+    | none => (st, "bad-op")
+  | "smp.scale" :: rest, some s =>
+    match parseAll? parseF64? rest with
+    | some v =>
+      if v.length ≠ 2 * s.dim then (st, "bad-op") else
+      let lo := v.take s.dim
+      let hi := v.drop s.dim
+      let s' := if s.isFloat then { s with stF := s.stF.computeScale (s.mkF lo) (s.mkF hi) }
+                else { s with stD := s.stD.computeScale (s.mkD lo) (s.mkD hi) }
+      ({ st with smp := some s' }, unwords ("scale" :: s'.scaleStr))
+    | none => (st, "bad-op")
+  | "smp.pts" :: n :: rest, some s =>
+    match n.toNat?, parseAll? parseF64? rest with
+    | some n, some v =>
+      if v.length ≠ s.dim * n then (st, "bad-op") else
+      let pts := (List.range n).map (fun i => (v.drop (s.dim * i)).take s.dim)
+      ({ st with smp := some { s with pts := pts } }, s!"ok {n}")
+    | _, _ => (st, "bad-op")
+  | "smp.corr" :: m :: rest, some s =>
+    match m.toNat?, chunks 3 rest with
+    | some m, some ch =>
+      if ch.length ≠ m then (st, "bad-op") else
+      match parseAll? (fun (c : List String) => match c with
+        | [a, b, w] => do pure ({ src := (← a.toNat?), tgt := (← b.toNat?), weight := (← parseF64? w) } : Sampler.Corr Float)
+        | _ => none) ch with
+      | some cs =>
+        if cs.any (fun c => c.src ≥ s.pts.length) then (st, "bad-op") else
+        ({ st with smp := some { s with corrs := cs } }, s!"ok {m}")
+      | none => (st, "bad-op")
+    | _, _ => (st, "bad-op")
+  | ["smp.draw", k], some s =>
+    match k.toNat? with
+    | some k =>
+      if s.corrs.length ≤ k then (st, "bad-op") else
+      let (s', idx) :=
+        if s.isFloat then
+          let r := s.stF.drawPoints s.order (s.pts.map s.mkF).toArray s.corrs k
+          ({ s with stF := r.1 }, r.2)
+        else
+          let r := s.stD.drawPoints s.order (s.pts.map s.mkD).toArray s.corrs k
+          ({ s with stD := r.1 }, r.2)
+      let drawn := idx.map (fun i => match s.corrs[i]? with
+        | some c => s!"{i}:{c.src}:{c.tgt}"
+        | none => s!"{i}:oob")
+      ({ st with smp := some s' },
+        unwords (["idx", toString idx.length] ++ drawn ++ s'.weightsStr ++ ["eng", toString s'.engine]))
+    | none => (st, "bad-op")
+  | ["smp.reset"], some s =>
+    let s' := if s.isFloat then { s with stF := s.stF.resetWeights } else { s with stD := s.stD.resetWeights }
+    ({ st with smp := some s' }, unwords ("reset" :: s'.weightsStr))
+  | ["smp.u", k], some s =>
+    match k.toNat? with
+    | some k =>
+      if k > 10000 then (st, "bad-op") else
+      let (e, us) := (List.range k).foldl (fun (acc : Nat × List Float) _ =>
+        let r := Sampler.uniform01 (α := Float) acc.1
+        (r.1, acc.2 ++ [r.2])) (s.engine, [])
+      let s' := if s.isFloat then { s with stF := { s.stF with engine := e } } else { s with stD := { s.stD with engine := e } }
+      ({ st with smp := some s' }, unwords (["u", toString k] ++ us.map fmtF64 ++ ["eng", toString e]))
+    | none => (st, "bad-op")
+  | _, _ => (st, "bad-op")
 
 def castOf (isFloat : Bool) : Float → Float := if isFloat then fun x => x.toFloat32.toFloat else id
 
@@ -139,6 +251,7 @@ def step (st : St) (toks : List String) : St × String :=
                   "draw2", toString C06.drawPoints2D, "draw3", toString C06.drawPoints3D,
                   "mininl", toString C06.minimalInliersFactor])
   | op :: _ =>
+    if op.startsWith "smp." then smpStep st toks else
     if op ∈ ["icp.run", "icp.trace", "icp.match", "ransac.synth", "rr.real"] then (st, "probe-only") else (st, "bad-op")
   | [] => (st, "bad-op")
 
